@@ -195,7 +195,10 @@ def run_handshake(tape):
       dth = threading.Thread(target=wadb.device_thread, args=(dev, wadb.scripted_handshake(batches)), name='device')
       dth.daemon = True
       dth.start()
-      keys = [wadb.RecordingSigner(sim, k) for k in range(nkeys)]
+      # a signer slower than the whole connect() timeout: the time runs out *between* two
+      # handshake steps
+      slow_signer = bool(nkeys) and tape.chance(150, 'slow_signer')
+      keys = [wadb.RecordingSigner(sim, k, 1.5 if slow_signer else 0.0) for k in range(nkeys)]
       t0 = sim.now
       try:
         conn = _m['adb_protocol'].AdbConnection.connect(tr, rsa_keys=keys or None, timeout_ms=1000,
@@ -217,6 +220,13 @@ def run_handshake(tape):
     viols.append({'clause': 'connect_stuck', 'details': {'info': (sim.failed_info or '')[:200]}})
   elif failed is None and 'result' in got:
     r, e = got['result'], exp['result']
+    if slow_signer and any(x[3] == 'sign' for x in log):
+      # the timeout expired while signing: connect() may still succeed (if the device's answer is
+      # already there) or fail - but only with one of the documented errors
+      probes['timeout_expired_between_handshake_steps'] = 1
+      if r[0] == 'error' and r[1] not in OK_ERRORS:
+        viols.append({'clause': 'handshake_raised_other_error', 'details': {'exc': r[1], 'msg': r[2], 'expected': 'timeout after slow signer'}})
+      return _hs_result(sim, viols, probes, faults, batches, desc, exp, got, nkeys, failed)
     flat = [x for d in desc for x in d]
     if any(x.startswith('noise') for x in flat):
       probes['noise_before_cnxn'] = 1
@@ -262,6 +272,10 @@ def run_handshake(tape):
         viols.append({'clause': 'public_key_offered_before_all_signatures', 'details': {'sigs': len(sigs), 'keys': nkeys}})
     if dev.received and dev.received[0][0] != 'CNXN':
       viols.append({'clause': 'first_host_packet_not_CNXN', 'details': {'first': dev.received[0][0]}})
+  return _hs_result(sim, viols, probes, faults, batches, desc, exp, got, nkeys, failed)
+
+
+def _hs_result(sim, viols, probes, faults, batches, desc, exp, got, nkeys, failed):
   return {
       'violations': viols, 'digest': sim.digest(), 'sched': sim.sched_digest(),
       'nontrivial': bool(faults) or len(batches) > 1 or bool(probes.get('noise_before_cnxn')),
@@ -298,7 +312,7 @@ def run_streams(tape):
     # closing a stream the device is still writing to leaves stale packets on the wire; with an id
     # limit this small the id would be reused at once and the stale packet misattributed (real
     # limits are 2**16), so early host closes are only generated when ids are not reused in the run
-    opts = [(3, 'read_to_end'), (2, 'keep'), (2, 'keep_remote_closes')]
+    opts = [(3, 'read_to_end'), (2, 'keep'), (2, 'keep_remote_closes'), (2, 'keep_then_close_and_drain')]
     if limit > nsvc + 1:
       opts += [(2, 'close_now'), (1, 'read_one_then_close')]
     plan.append((s, tape.weighted(opts, 'what')))
@@ -310,6 +324,7 @@ def run_streams(tape):
   hist = []
   closers = []
   closer_out = []
+  drain_later = []
   # (like the early host closes above: only when ids are not reused within the run)
   concurrent_close = tape.chance(500, 'concurrent_close') and limit > nsvc + 1
   saved_limit = ap.STREAM_ID_LIMIT
@@ -322,7 +337,7 @@ def run_streams(tape):
       tr = wadb.FakeTransport(sim)
       dev = wadb.Device(sim, tape, tr, {'maxdata': 64, 'scripts': scripts, 'refuse': refuse,
                                         'close_after': close_after, 'inject': inject,
-                                        'expect_host_writes': {s: 10 ** 6 for s, w in plan if w == 'keep'}})
+                                        'expect_host_writes': {s: 10 ** 6 for s, w in plan if w in ('keep', 'keep_then_close_and_drain')}})
       dth = threading.Thread(target=wadb.device_thread, args=(dev, wadb.plain_handshake), name='device')
       dth.daemon = True
       dth.start()
@@ -346,8 +361,10 @@ def run_streams(tape):
         rec['local'] = stream._transport.local_id   # pylint: disable=protected-access
         # (a kept stream that the device has closed in the meantime no longer owns its id)
         rec['ids_live'] = sorted(st._transport.local_id for sv, st in live.items()
-                                 if dict(plan)[sv] == 'keep') + [rec['local']]
-        if what in ('keep', 'keep_remote_closes'):
+                                 if dict(plan)[sv] == 'keep') + [dst._transport.local_id for (_, dst) in drain_later] + [rec['local']]
+        if what == 'keep_then_close_and_drain':
+          drain_later.append((rec, stream))
+        elif what in ('keep', 'keep_remote_closes'):
           live[s] = stream
           if what == 'keep_remote_closes' and concurrent_close:
             # a second host thread closes it while this one goes on reading other streams - and so
@@ -387,6 +404,27 @@ def run_streams(tape):
           rec['data'] = ''.join(data)
       for cth in closers:
         cth.join()
+      # streams whose packets other readers have demultiplexed meanwhile: close from the host
+      # side, then read - what was received before the close must still come out
+      for (rec, stream) in drain_later:
+        core.sim_sleep(0.3)
+        rec['wire_empty_at_close'] = not tr.d2h.chunks
+        rec['sent_at_close'] = dict((st_['svc'], st_['sent']) for st_ in dev.streams.values()).get(rec['svc'], 0)
+        stream.close(200)
+        rec['closed'] = 'host'
+        data = []
+        try:
+          for _ in range(20):
+            d = stream.read(timeout_ms=300)
+            if d is None:
+              break
+            data.append(d)
+          rec['end'] = 'none'
+        except BaseException as e:  # pylint: disable=broad-except
+          if isinstance(e, (core.SimAbort, core.SimShutdown)):
+            raise
+          rec['end'] = type(e).__name__
+        rec['data'] = ''.join(data)
       # finally close what was kept
       for s, stream in sorted(live.items()):
         stream.close(200)
@@ -471,6 +509,24 @@ def run_streams(tape):
         viols.append({'clause': 'device_never_saw_open', 'details': {'svc': s}})
         continue
       clse = st.get('closed_by_host', 0)
+      if what == 'keep_then_close_and_drain':
+        nlive += 1
+        sent = ''.join(scripts[s][:st['sent']])
+        got_d = rec.get('data') or ''
+        probes['close_then_drain'] = 1
+        if rec.get('end') != 'AdbStreamClosedError':
+          viols.append({'clause': 'closed_stream_not_reported_closed', 'details': {'end': rec.get('end'), 'what': what}})
+        elif not sent.startswith(got_d):
+          viols.append({'clause': 'stream_data_wrong', 'details': {'got': got_d[:40], 'sent': sent[:40], 'what': what}})
+        elif rec.get('wire_empty_at_close') and rec.get('sent_at_close', 0) >= 1 and scripts[s] and \
+            not got_d.startswith(scripts[s][0]):
+          # the device's first WRTE had been taken off the wire by the host (another stream's
+          # reader queued it for this stream) before the host closed the stream
+          viols.append({'clause': 'reads_did_not_drain_buffered_data', 'details': {
+              'got': got_d[:40], 'queued_before_close': scripts[s][0][:40], 'what': what}})
+        if clse != 1:
+          viols.append({'clause': 'close_not_answered_by_exactly_one_CLSE', 'details': {'svc': s, 'clse': clse, 'what': what}})
+        continue
       if what == 'keep_remote_closes':
         # the device closed it while another stream's reader was demultiplexing; the host's own
         # close() later must not produce a second CLSE
